@@ -276,7 +276,7 @@ def rule_pop(check, cm, rule):
         rule.ok('%s() returns pop()\'s batch unchanged' % name, m.loc(r))
         continue
       cands = [x for x in resolve_copies(m, v)] if isinstance(v, ast.Name) and al.get(v.id) is None else [v]
-      verdicts = [_sorted_items(x, al) if isinstance(x, ast.AST) else 'not sorted(...)' for x in cands]
+      verdicts = [_sorted_items(x, al, m) if isinstance(x, ast.AST) else 'not sorted(...)' for x in cands]
       verdict = 'ok' if verdicts and all(x == 'ok' for x in verdicts) else next((x for x in verdicts if x != 'ok'), 'not sorted(...)')
       if verdict == 'ok':
         rule.ok('%s() returns sorted(<removed dict>.items()) by timestamp' % name, m.loc(r))
@@ -287,12 +287,17 @@ def rule_pop(check, cm, rule):
                      'timestamp: `%s` (%s)' % (name, short(r), verdict))
 
 
-def _sorted_items(v, aliases):
+def _sorted_items(v, aliases, m=None):
   if not (isinstance(v, ast.Call) and isinstance(v.func, ast.Name) and v.func.id == 'sorted' and v.args):
     return 'not sorted(...)'
   a = v.args[0]
   if isinstance(a, ast.Call) and isinstance(a.func, ast.Name) and a.func.id == 'list' and a.args:
     a = a.args[0]
+  if isinstance(a, ast.Name) and m is not None and aliases.get(a.id) is None:
+    # a local that holds <removed dict>.items()
+    srcs = resolve_copies(m, a)
+    if len(srcs) == 1 and isinstance(srcs[0], ast.AST) and srcs[0] is not a:
+      a = srcs[0]
   if not (isinstance(a, ast.Call) and isinstance(a.func, ast.Attribute) and a.func.attr == 'items' and
           isinstance(a.func.value, ast.Name) and aliases.get(a.func.value.id) == 'owned'):
     return 'argument is not <removed dict>.items()'
